@@ -50,6 +50,9 @@ func (w *World) ledgerPrefix() ([]Op, map[string]TransferSpec) {
 		w.OpPauseAction("ACTION_FEE"),
 		w.OpUpdateParams(8),
 		OpEnv("ftf-pause"),
+		// statistics of one route 10 below the top of the 256-bit range (a state genesis import can produce): the next
+		// transfers on that route cannot be recorded — whatever the module makes of that, the funds must still move
+		OpEnv("seed-stats-top"),
 		w.OpRecv("plainICS20(bob,300uusdc)", NewPkt("channel-0", denomUSDC, "300", w.Bob.String(), "")),
 	)
 	return ops, specs
